@@ -19,6 +19,10 @@ def member_name(m) -> str:
     j = m["name"]
     if m["type"] == "pax":
         return "p" * 110 + f"_é{j}.txt"          # > 100 chars and non-ASCII: needs a pax path record
+    if m["type"] in ("empty", "anti"):
+        return f"{m['type'][0]}{j}.txt"
+    if m["type"] == "dir":
+        return f"d{j}"
     return f"n{j}.txt"
 
 
@@ -37,8 +41,13 @@ def build_zip(members) -> bytes:
 
 
 def build_7z(members, method) -> bytes:
-    return c12_sevenz.write_7z([(member_name(m), content(i, m["size"])) for i, m in enumerate(members, start=1)],
-                               method=method)
+    """Folders as the scenario says (member["folder"]); entries without data stream: empty file, directory, anti."""
+    if all(m["type"] == "reg" and m.get("folder", 1) == 1 for m in members):
+        return c12_sevenz.write_7z([(member_name(m), content(i, m["size"])) for i, m in enumerate(members, start=1)],
+                                   method=method)
+    return c12_sevenz.write_7z_layout(
+        [(member_name(m), content(i, m["size"]) if m["type"] == "reg" else None, m["type"], m.get("folder", 0))
+         for i, m in enumerate(members, start=1)], method=method)
 
 
 def _pad(b: bytes) -> bytes:
